@@ -20,6 +20,61 @@ pub struct C07Case {
     pub perm_keys: Vec<u16>,
     #[serde(with = "crate::fl::vecvec")]
     pub updates: Vec<Vec<f64>>,
+    /// an instance of the certified families (S >= 2) for the fitted-alpha invariance under
+    /// column permutation
+    pub fam: crate::gen::FamCase,
+}
+
+/// relative tolerance for "alpha unchanged up to the accuracy of the optimizer" (f64; calibrated,
+/// the measured maximum is reported as observed_maxima.permuted_fit_alpha_deviation)
+pub const PERM_FIT_TOL: f64 = 1e-6;
+
+fn permuted_fit<T: Sc>(case: &C07Case, out: &mut Outcome) -> Result<(), Fail> {
+    let fam = &case.fam;
+    if fam.s() < 2 || fam.f32 {
+        return Ok(());
+    }
+    let perm = perm_of(&case.perm_keys, fam.s());
+    let mut fp = fam.clone();
+    fp.c_true = perm.iter().map(|&i| fam.c_true[i].clone()).collect();
+    // same noise realisation per column: permute the observations themselves
+    let obs = fam.observations();
+    let mut pa = fam.to_problem_case();
+    let mut pb = pa.clone();
+    pa.y = obs.clone();
+    pb.y = perm.iter().map(|&i| obs[i].clone()).collect();
+    let solver = levenberg_marquardt::LevenbergMarquardt::<T>::new();
+    let fa = pa.build::<T>().map_err(|e| Fail::new("build", e))?.fit(&solver);
+    let fb = pb.build::<T>().map_err(|e| Fail::new("build", e))?.fit(&solver);
+    if fa.ok != fb.ok {
+        return Err(Fail::new("c07.permuted_fit_verdict", format!("fit verdict changes under a column permutation: {:?} vs {:?}", fa.report.term, fb.report.term)));
+    }
+    if fa.ok {
+        let dev = fa.alpha.iter().zip(&fb.alpha).map(|(a, b)| (a.f() - b.f()).abs() / a.f().abs()).fold(0.0, f64::max);
+        out.max("permuted_fit_alpha_deviation", dev);
+        out.class("permuted-fit:compared");
+        if dev > PERM_FIT_TOL {
+            return Err(Fail::new("c07.permuted_fit_alpha", format!("fitted alpha changes by {dev:e} (relative) under the column permutation {perm:?}: {:?} vs {:?}", fa.alpha, fb.alpha)));
+        }
+        // coefficients permute accordingly
+        if let (Some(ca), Some(cb)) = (&fa.coeffs, &fb.coeffs) {
+            for (j, &src) in perm.iter().enumerate() {
+                let a: Vec<f64> = ca.column(src).iter().map(|v| v.f()).collect();
+                let b: Vec<f64> = cb.column(j).iter().map(|v| v.f()).collect();
+                let d = dev2(&a, &b);
+                out.max("permuted_fit_coefficient_deviation", d);
+                if d > 1e-4 {
+                    return Err(Fail::new("c07.permuted_fit_coefficients", format!("coefficients of column {src} change by {d:e} (relative) when it becomes column {j}")));
+                }
+            }
+        }
+    }
+    Ok(())
+}
+
+fn dev2(a: &[f64], b: &[f64]) -> f64 {
+    let d: Vec<f64> = a.iter().zip(b).map(|(x, y)| x - y).collect();
+    norm2(&d) / norm2(a).max(norm2(b)).max(f64::MIN_POSITIVE)
 }
 
 fn perm_of(keys: &[u16], s: usize) -> Vec<usize> {
@@ -135,6 +190,7 @@ fn run<T: Sc>(case: &C07Case) -> Check {
         };
         drive::<T>(base, &case.updates, Some(&case.lm), &mut visit)?;
     }
+    permuted_fit::<f64>(case, &mut out)?;
     let distinct_cols = (0..s).any(|i| (0..i).any(|j| base.y[i] != base.y[j]));
     out.nontrivial = s >= 2 && distinct_cols;
     if !identity {
@@ -160,7 +216,7 @@ impl Property for C07 {
         "C07"
     }
     fn rule(&self) -> String {
-        "proptest: multi-rhs problems with S in 1..6 columns (duplicated and linearly dependent columns generated), all weight classes, seq/par, builder/hand, f32/f64; S single-column problems built with the single-rhs constructor on the same model spec; a column permutation. Differential oracle at construction, after caller updates and at every alpha of an LM run on the multi-rhs problem: column s of C, block s of r and block s of every Jacobian column equal the single-column problem's values (bitwise, else condition-aware tolerance); a one-column multi-rhs problem equals the single-rhs problem; the permuted problem's column j equals the single-column problem perm[j]. Fitted-alpha invariance under permutation is checked on the certified families in C05's generator (see c07 epilogue classes). Non-trivial: S >= 2 and not all columns equal".into()
+        "proptest: multi-rhs problems with S in 1..6 columns (duplicated and linearly dependent columns generated), all weight classes, seq/par, builder/hand, f32/f64; S single-column problems built with the single-rhs constructor on the same model spec; a column permutation. Differential oracle at construction, after caller updates and at every alpha of an LM run on the multi-rhs problem: column s of C, block s of r and block s of every Jacobian column equal the single-column problem's values (bitwise, else condition-aware tolerance); a one-column multi-rhs problem equals the single-rhs problem; the permuted problem's column j equals the single-column problem perm[j]. Fitted-alpha invariance under permutation: an instance of the certified families (C05's generator, S >= 2, f64) is fitted before and after permuting its observation columns; alpha_hat must agree to 1e-6 (relative) and the coefficient columns must permute. Non-trivial: S >= 2 and not all columns equal".into()
     }
     fn cases(&self, tier: Tier) -> usize {
         match tier {
@@ -178,8 +234,9 @@ impl Property for C07 {
             any::<u16>(),
             -2.0f64..2.0,
             -2.0f64..2.0,
+            crate::gen::family_strategy(crate::gen::FamCfg { max_s: 5, min_n: 30, max_n: 120, noise_lo: 1e-6, noise_hi: 1e-3, noiseless_16: 4, start_rel: 0.03, allow_f32: false, weights: true, calibrated_weights: false }),
         )
-            .prop_map(|(mut base, lm, perm_keys, raws, dupsel, fa, fb)| {
+            .prop_map(|(mut base, lm, perm_keys, raws, dupsel, fa, fb, fam)| {
                 base.mrhs = true;
                 let s = base.s();
                 // duplicated / linearly dependent columns
@@ -198,7 +255,7 @@ impl Property for C07 {
                     }
                 }
                 let updates = crate::gen::alpha_list(&base.spec, &raws);
-                C07Case { base, lm, perm_keys, updates }
+                C07Case { base, lm, perm_keys, updates, fam }
             })
             .boxed()
     }
